@@ -410,6 +410,7 @@ def run(prog, chk):
     else:
         chk.bad("C10.d", f, "fastsignal-wait", "%s:%s" % (f.file, f.line), "FastSignal::wait must test _state with Atomic::load and otherwise block in Signal::wait")
 
+    condition_wait_loops(prog, chk, "C10.m")
     # ------------------------------------------------------------------ C10.e
     f = fn1(prog, lambda f: f.gname == PRIV + "ThreadPool::ThreadContext::proc", "ThreadContext::proc")[0]
     where = "%s:%s" % (f.file, f.line)
@@ -581,3 +582,57 @@ def run(prog, chk):
             chk.ok("C10.g", f, "`%s` under the pool mutex" % f.r(ev)[:40], f.where(ev), "a live Mutex::Guard dominates", evals=2)
         else:
             chk.bad("C10.g", f, "worker-list-without-mutex", f.where(ev), "`%s` modifies the worker list / count without holding the pool mutex (two starters corrupt the list)" % f.r(ev)[:50])
+
+
+def condition_wait_loops(prog, chk, rid):
+    """Signal::wait sits under join(), both destructors, the result conversion and the pool's FastSignal.  A condition variable may wake
+    without the flag having been raised (a spurious wake-up, or the late broadcast of an EARLIER set() of a re-used Signal): the flag
+    has to be tested again after every return of pthread_cond_(timed)wait before wait() reports success."""
+    chk.rule(rid, "MPT: in Signal::wait / wait(timeout) no path leads from a return of pthread_cond_wait / pthread_cond_timedwait to "
+                  "`return true` without evaluating a test of `signaled` in between", floor=2)
+    fs = [f for f in prog.functions.values() if f.name == "Signal::wait" and f.file.endswith("src/Signal.cpp") and f.blocks]
+    if len(fs) < 2:
+        raise AnalysisBroken("Signal::wait() / Signal::wait(int64) not found")
+    for f in sorted(fs, key=lambda g: g.sig):
+        cw = [c for c in q.calls(f) if (f.nodes[c].get("callee") or "") in ("pthread_cond_wait", "pthread_cond_timedwait")]
+        if not cw:
+            raise AnalysisBroken("%s: no pthread_cond_(timed)wait call" % f.sig)
+        tests = set()
+        for b in f.blocks.values():
+            c = b.get("cond")
+            if c is not None and len(b["succ"]) == 2 and any(f.nodes[x]["k"] == "MemberExpr" and f.nodes[x].get("m") == "signaled" for x in [f.strip(c)] + list(f.desc(c))):
+                tests.add((b["id"], len(b["el"])))
+                p_ = f.node_pos(f.strip(c))
+                if p_ is not None:
+                    tests.add(p_)
+        # where success is decided: a `return <non-zero>`, or the definition of a returned local with a value other than constant 0
+        rets = []
+        defs_ = q.local_defs(f)
+        for i, n in enumerate(f.nodes):
+            if n["k"] != "ReturnStmt" or not n["c"]:
+                continue
+            v_ = fin.eval_expr(f, n["c"][0], {})
+            if v_ == 0:
+                continue
+            x_ = f.nodes[f.strip(n["c"][0])]
+            dl_ = [d_ for d_ in defs_.get(x_["ref"]["id"], []) if d_[0] != "addr"] if v_ is None and x_["k"] == "DeclRefExpr" and x_["ref"].get("dk") == "local" else []
+            dl_ = [d_ for d_ in dl_ if d_[2] is not None]      # `bool result;` without initialiser defines no value
+            if dl_ and not any(d_[0] == "addr" for d_ in defs_.get(x_["ref"]["id"], [])):
+                rets += [d_[1] for d_ in dl_ if fin.eval_expr(f, d_[2], {}) != 0]
+            else:
+                rets.append(i)
+        bad = None
+        for w in cw:
+            for r in rets:
+                if f.node_pos(w) is None or f.node_pos(r) is None:
+                    continue
+                pth = f.find_path(f.node_pos(w), {f.node_pos(r)}, avoid=tests)
+                if pth is not None:
+                    bad = (w, r)
+        if bad:
+            chk.bad(rid, f, "wake-up-without-retest", f.where(bad[1]),
+                    "after `%s` returns, `%s` is reached without testing `signaled` again: a spurious wake-up - or the delayed broadcast of an "
+                    "earlier set() when the Signal is re-used (Future restarted) - ends the wait although the flag is down: join() and the result "
+                    "conversion return before the call has completed" % (f.nodes[bad[0]]["callee"], q.no_casts(f.r(bad[1]))[:20]), evals=len(cw) * max(1, len(rets)))
+        else:
+            chk.ok(rid, f, "every wake-up re-tests `signaled` before success is reported", f.where(cw[0]), "no test-free path from the wait to a `return true`", evals=len(cw) * max(1, len(rets)))
